@@ -9,7 +9,7 @@ import numpy as np
 import catalogs as C
 import gen_sky as G
 import oracle as O
-from core import Check, Infra, to_frac
+from core import Check, Infra, fr, to_frac
 
 np.seterr(all="ignore")
 warnings.filterwarnings("ignore")
@@ -21,7 +21,7 @@ THEOREMS = [
     "Yaw.C01.link_tie_witness", "Yaw.C01.count_pairs_eq_spec_partial", "Yaw.C01.glue_pinned",
     "Yaw.PC.pruned_pairs_empty", "Yaw.PC.pruned_pairs_empty_notie", "Yaw.PC.cntLe_split", "Yaw.PC.cnt_split",
     "Yaw.PC.argminAbs_mem", "Yaw.PC.columns_perm", "Yaw.C01.tree_pair_count_exact_merged"]
-KERNELS = ["k_paircount"]
+KERNELS = ["k_paircount", "k_tree"]
 RULE = ("catalog sets sharing patch centres (1..6 patches; base position on the equator, across RA=0, on either pole; "
         "compact / wide / mixed patch extents; data vs randoms of different size and extent; integer weights or none; "
         "redshifts incl. exact bin edges) x configurations (1..3 scales incl. overlapping, units rad/deg/arcmin/kpc/Mpc/"
@@ -382,8 +382,8 @@ def run_case(ck, rng, root, ci, tier):
 
 def run(prop, tier, seed, replay):
     import plan_tie
-    ck = Check(prop, tier, seed, kernels=KERNELS + ["k_plan"], theorems=THEOREMS + plan_tie.THEOREMS,
-               lean_modules=["YawVerif.Props.C01", plan_tie.MODULE], rule=RULE,
+    ck = Check(prop, tier, seed, kernels=KERNELS + ["k_plan"], theorems=THEOREMS + plan_tie.THEOREMS + ["Yaw.C01Tree.ang_limits_spec", "Yaw.C01Tree.accepted_scale", "Yaw.C01Tree.tree_flags"],
+               lean_modules=["YawVerif.Props.C01", plan_tie.MODULE, "YawVerif.Props.C01Tree"], rule=RULE,
                assumptions=["scipy KDTree.count_neighbors returns the exact weighted neighbour counts for the stored "
                             "float vectors (validated against the O(n^2) oracle)",
                             "astropy distances are evaluated independently by the oracle"])
@@ -426,4 +426,66 @@ def run(prop, tier, seed, replay):
                     if not ok:
                         ck.add_tie_break("AngularTree.count: implementation vs model",
                                          {"request": rid, "impl": exp[1], "model": [float(v) for v in vals]})
+    # ---- the front door of the tree counter: which angular limits are accepted; a tree's own bookkeeping ---------------
+    import math
+    from fractions import Fraction
+    from yaw.catalog.trees import AngularTree, parse_ang_limits
+    from yaw.coordinates import AngularCoordinates
+    rng = ck.rng
+    pi_f = Fraction(math.pi)
+    lreq, lexp = [], []
+    pool = [0.0, 1e-9, 0.001, 0.01, 0.25, 1.0, 3.0, math.pi, math.nextafter(math.pi, 4.0), 3.5, -0.0, -1e-12, -0.5]
+    for i in range(60 if ck.tier == "quick" else 600):
+        k1 = rng.choice([1, 1, 2, 3])
+        k2 = k1 if rng.random() < 0.85 else rng.choice([1, 2, 3])
+        if i % 3 == 0:        # mostly valid: increasing pairs inside [0, pi]
+            los = sorted(rng.choice(pool[:8]) for _ in range(k1))
+            mins, maxs = los, [min(math.pi, x + rng.choice([0.001, 0.1, 1.0])) for x in los][:k2] + [1.0] * max(0, k2 - k1)
+        else:
+            mins, maxs = [rng.choice(pool) for _ in range(k1)], [rng.choice(pool) for _ in range(k2)]
+        try:
+            parse_ang_limits(np.array(mins), np.array(maxs))
+            impl = "ok"
+        except ValueError:
+            impl = "raise"
+        spec = "ok" if (len(mins) == len(maxs) and all(a < b for a, b in zip(mins, maxs))
+                        and all(0.0 <= x <= math.pi for x in mins + maxs)) else "raise"
+        ck.count(f"ang-limits:{impl}")
+        ck.case(None, ("anglimits", tuple(mins), tuple(maxs)))
+        if impl != spec:
+            ck.add_violation(f"parse_ang_limits({mins}, {maxs}): {impl}, documented: {spec} (0 <= min < max <= pi, equal lengths)",
+                             {"ang_min": mins, "ang_max": maxs, "what": "ang-limits"})
+        lreq.append(f"al{i} anglimits {len(mins)} {' '.join(fr(x) for x in mins)} {len(maxs)} {' '.join(fr(x) for x in maxs)} {fr(pi_f)}")
+        lexp.append((impl, mins, maxs))
+    lans = ck.driver("GenTree", lreq)
+    if lans is not None:
+        for (impl, mins, maxs), a in zip(lexp, lans):
+            if impl != a:
+                ck.add_tie_break("parse_ang_limits vs generated kernel", {"ang_min": mins, "ang_max": maxs, "impl": impl, "model": a})
+    for n in (0, 1, 5, 40):
+        co = AngularCoordinates(np.column_stack([np.linspace(0.1, 0.2, n), np.linspace(-0.1, 0.1, n)])) if n else AngularCoordinates(np.empty((0, 2)))
+        w = np.array([float(rng.choice([1, 2, 3, 7])) for _ in range(n)])
+        ck.case(None, ("tree-meta", n))
+        try:
+            t_u, t_w = AngularTree(co), AngularTree(co, w)
+            ok = (t_u.num_records == n and t_u.sum_weights == float(n) and t_u.weights is None and t_w.num_records == n
+                  and t_w.sum_weights == float(w.sum()) and np.array_equal(t_w.weights, w)
+                  and (n == 0 or np.array_equal(np.asarray(t_w.data), co.to_3d())))
+        except Exception as e:  # noqa: BLE001
+            if n == 0:
+                continue          # (an empty coordinate set may be refused by the KD-tree; empty trees come from AngularTree.empty)
+            ck.add_violation(f"AngularTree of {n} records raised {type(e).__name__}: {e}", {"n": n, "what": "tree-meta"})
+            continue
+        if not ok:
+            ck.add_violation(f"AngularTree of {n} records: num_records / sum_weights / stored weights / stored points differ from the input",
+                             {"n": n, "weights": w.tolist(), "what": "tree-meta"})
+        if n:
+            try:
+                AngularTree(co, w[:-1] if n > 1 else np.ones(2))
+                ck.add_violation("AngularTree accepts weights of another length than the coordinates", {"n": n, "what": "tree-meta"})
+            except ValueError:
+                pass
+    e0 = AngularTree.empty(has_weights=True)
+    if not (e0.num_records == 0 and e0.sum_weights == 0.0 and len(e0.data) == 0):
+        ck.add_violation("AngularTree.empty is not empty", {"what": "tree-meta"})
     return ck.finish()
